@@ -738,8 +738,14 @@ def gen_e(shard, tier):
                                                    for c in CODES]
     form_reps = list(TYPED_FORMULA) + [(E(c), h) for c in CODES
                                        for h in ('lit', 'cell')]
+    # a text that spells an error code is a text, not an error
+    call_reps += [(['str', '#N/A'], None), (['str', '#DIV/0!'], None),
+                  (['Text', '#REF!'], None)]
+    form_reps += [(['str', '#N/A'], 'lit'), (['str', '#DIV/0!'], 'cell'),
+                  (['str', '#VALUE!'], 'lit')]
     if deep(tier):
-        call_reps += [(s, None) for s in TYPED_CALL_MORE]
+        call_reps += [(s, None) for s in TYPED_CALL_MORE
+                      if s != ['str', '#N/A']]
         form_reps += list(TYPED_FORMULA_MORE) + [
             (['errlit', c], 'cell') for c in CODES]
     for route, reps in (('call', call_reps), ('formula', form_reps)):
